@@ -111,15 +111,22 @@ def _replay(model, rec):
     if not name or any(c.isspace() or ord(c) < 33 for c in name):
         toks[0] = "--my-flag" if "-" in name or not name else toks[0]
         name = toks[0][2:]
-    bare = len(toks) == 1 or toks[1].startswith("--")
-    toks = toks[:1] if bare else toks[:2]
-    code, seen, out = run_generate_cli(toks)
-    want_key = name.replace("-", "_")
-    want_val = True if bare else toks[1].strip("\"'")
-    ok = code == 0 and seen.get(want_key, None) == want_val and set(seen) == {want_key}
-    detail = (f"textx generate ... {' '.join(toks)} -> exit {code}, generator received {seen!r}; "
-              f"the property demands {{{want_key!r}: {want_val!r}}}")
-    return (not ok), detail
+    # the counter-model's tokens first, then the token shapes the statement distinguishes: bare flag,
+    # flag with value, value that itself starts with a dash, quoted value, flag followed by a flag
+    candidates = [toks, ["--my-flag"], ["--out-dir", "v"], ["--line-offset", "-5"], ["--title", "'q r'"],
+                  ["--first", "--second-one"]]
+    details = []
+    for toks in candidates:
+        name = toks[0][2:]
+        bare = len(toks) == 1 or toks[1].startswith("--")
+        want = {name.replace("-", "_"): True if bare else toks[1].strip("\"'")}
+        if bare and len(toks) == 2:
+            want[toks[1][2:].replace("-", "_")] = True
+        code, seen, out = run_generate_cli(toks)
+        if not (code == 0 and seen == want):
+            details.append(f"textx generate ... {' '.join(toks)} -> exit {code}, generator received {seen!r}; "
+                           f"the property demands {want!r}")
+    return bool(details), "; ".join(details) or "custom arguments reach the generator as the statement says"
 
 
 # --------------------------------------------------------------------------
